@@ -2,7 +2,7 @@
 import z3
 from pyvc.core import (Val, VNone, VTrue, VFalse, VInt, VStr, VBool, VRef, I, B, S, IntOk, IntOf, Lower, Strip,
                        Basename, ClassName, IsSub, StrOf, IdStr)
-from pyvc.contract import (contract, extern, class_invariant, FRESH, VAL, ANY, INT, STR, BOOL, NONE, FLOAT, OBJ, LIST, TUPLE, DICT,
+from pyvc.contract import (contract, extern, class_invariant, FRESH, VAL, SEQ, ANY, INT, STR, BOOL, NONE, FLOAT, OBJ, LIST, TUPLE, DICT,
                            STRDICT, OPT, CALLABLE, FRAME, P, ite)
 
 TRIGGER = "api/tracepoint/trigger.py"
